@@ -311,3 +311,20 @@ func jsonStr(v any) string {
 	b, _ := json.Marshal(v)
 	return string(b)
 }
+
+// Harness code is not instrumented, so its own channel operations must go
+// through the simulator explicitly: a raw receive would let the woken harness
+// goroutine run beside the current task.
+
+// hrecv is a gated receive for harness tasks.
+func hrecv[T any](ch <-chan T) (T, bool) { return simrt.Recv2("harness:recv", ch) }
+
+// hsend is a gated send for harness tasks.
+func hsend[T any](ch chan<- T, v T) {
+	t := simrt.Pre("harness:send")
+	defer simrt.Post(t)
+	ch <- v
+}
+
+// hclose is a gated close.
+func hclose[T any](ch chan T) { close(simrt.G("harness:close", ch)) }
